@@ -1238,11 +1238,13 @@ ROUTES = (("native-scope/bounded#", None),
           ("_bytes_to_base64", ("base64-helpers-boundary-sizes",)), ("_bytesio_to_base64", ("base64-helpers-boundary-sizes",)),
           ("_base64_to_bytes", ("base64-helpers-boundary-sizes",)),
           ("post-init", ("post-init-idempotent",)),
+          ("keys-are-str", ("xls-workbook-rows", "marker-slots")),
           ("dict-keys", ("marker-slots",)),
           ("ods_extractor", ("ods-cell-kinds",)),
           ("xlsx_extractor", ("xlsx-cell-kinds",)),
           ("xls_extractor", ("xls-cell-kinds", "xls-workbook-rows")), ("XlsSheet", ("xls-workbook-rows",)),
           ("populate_from_path", ("metadata-paths",)), ("Metadata", ("metadata-paths",)),
+          ("field-stores", ("metadata-paths", "post-init-idempotent", "type-directed-roundtrip")),
           ("cli.py::main", ("cli-stdout-json",)), ("cli.py", ("cli-payload-shapes", "cli-stdout-json")))
 
 
